@@ -46,6 +46,73 @@ def check_graph(r, k, G, n, starts=None):
     r.ctr['graphs'] += 1
 
 
+def sparse_strand(k, G, start, m):
+    """Walk that goes round (arc choice i+1 mod out-degree) with m isolated non-arc substitutions placed
+    only where the current vertex has a single out-going arc: every error then has exactly one
+    substitution candidate, so the candidate product stays 1 however many errors there are."""
+    step = 2 * k + 3
+    n = (m + 2) * (step + 8) + 2 * k + 2
+    w = U.rule_walk(G, start, n, 1, 1)
+    s, v, last, placed = list(w), start, -step, 0
+    for i, c in enumerate(w):
+        live = O.outs(G, v)
+        if placed < m and i >= k + 1 and i - last >= step and len(live) == 1 and i < len(w) - 2 * k - 2:
+            dead = [O.NUC[j] for j in range(4) if G[v][j] < 0]
+            s[i] = dead[0]
+            last = i
+            placed += 1
+        v = G[v][O.NUC.index(c)]
+    return ''.join(s), placed
+
+
+def sparse_case(r, k, G, start, m, indel):
+    s, placed = sparse_strand(k, G, start, m)
+    acc = U.A(G)
+    st, res, loops = RP.call(s, acc, start, k, chk=None, indel=indel, heap=1000)
+    r.trans += 1
+    r.evals += 1
+    r.states += 1
+    r.nontriv += 1
+    case = dict(RP.gcase(k, G), start=start, sparse_sites=m, indel=indel, heap=1000)
+    if st == 'budget':
+        r.v('C10|k=%d|does-not-return|many-single-candidate-sites' % k, 'sparse', case, None, '%d sites placed on %d nt' % (placed, len(s)))
+    elif st == 'exc':
+        r.v('C10|k=%d|raised-%s|many-single-candidate-sites' % (k, type(res).__name__), 'sparse', case, None, repr(res)[:150])
+    elif not RP.wellformed_result(res):
+        r.v('C10|k=%d|malformed-result|many-single-candidate-sites' % k, 'sparse', case, None, repr(res)[:150])
+    else:
+        r.maxi('sparse_sites_placed', placed)
+        r.maxi('sparse_detected', int(res[1][0]))
+        r.ctr['sparse_product' if int(res[1][2]) >= 1 else 'sparse_fallback'] += 1
+
+
+def _w_sparse(chunk):
+    r = core.Res()
+    for k, G, start, m, indel in chunk:
+        sparse_case(r, k, G, start, m, indel)
+    return r
+
+
+def sparse_jobs():
+    from .C03 import tiny_closed_sets
+    jobs = []
+    for k in (3, 5):
+        S = tiny_closed_sets(k)[0]                 # A^k and the rotations of A^(k-1)C: one branching vertex
+        G = O.from_mask(O.gfp(S, k, 1), k)
+        start = O.idx('A' * k)
+        for m in list(range(0, 20)) + list(range(55, 80)) + [100, 130]:
+            for indel in (False, True):
+                jobs.append((k, G, start, m, indel))
+    c = O.compile_cfg((5, 1, ('0.4', '0.6'), ['ACG', 'TGC', 'GA']))
+    mask = {v for v in range(4 ** 5) if O.seq_ok_c(c, O.kmer(v, 5))}
+    S = O.gfp(mask, 5, 1)
+    if S:
+        G = O.from_mask(S, 5)
+        for m in (10, 40, 63, 64, 65, 66, 80):
+            jobs.append((5, G, sorted(S)[0], m, False))
+    return jobs
+
+
 def long_strand(k, G, start, m):
     """Default walk (first live arc at every step) long enough for m isolated substitutions by a
     nucleotide that is not an arc, one every 2k+3 positions starting at position k+1."""
@@ -114,6 +181,9 @@ def check_case(r, kind, case):
     if kind == 'long':
         long_case(r, case['k'], G, case['start'], case['long_sites'], case['indel'], case['heap'])
         return
+    if kind == 'sparse':
+        sparse_case(r, case['k'], G, case['start'], case['sparse_sites'], case['indel'])
+        return
     rep_case(r, case['k'], G, U.A(G), case['start'], case['s'], case['indel'], case['chk'] is not None, case['heap'])
 
 
@@ -143,6 +213,8 @@ def run(ctx):
     items.sort(key=lambda x: -(4 ** x[0]))
     ctx.pmap(_w, [(n_by_k, [c]) for c in items if c[0] >= 3] + [(n_by_k, c) for c in core.chunks_of([c for c in items if c[0] < 3], 4)])
     ctx.pmap(_w_long, core.chunks_of(long_jobs(q), 6))
+    ctx.pmap(_w_sparse, core.chunks_of(sparse_jobs(), 4))
+    ctx.guard('more than 64 single-candidate errors repaired through the product path', ctx.res.mx.get('sparse_detected', 0) > 64 and ctx.res.ctr['sparse_product'] > 10)
     ctx.guard('long family takes both return paths', ctx.res.ctr['long_fallback'] > 10 and ctx.res.ctr['long_product'] > 10)
     ctx.bounds = {'long_family': 'default walks with m isolated non-arc substitutions, every m in 0..130 (k<=2) / 0..70 (k=3), default heap: the candidate product must be cut off',
                   'strings': 'all ACGT strings of length k..n, n = %s' % n_by_k,
